@@ -179,6 +179,50 @@ theorem atan2_table (L : Lib) (y x r : FV) (h : Spec.atan2Table y x = some r) : 
       simp [Spec.atan2Table, isNaN, isZero_fin, Spec.isFiniteV, signBit, hy, hx, Spec.isPositive, zero] at h <;>
       simp [mathAtan2, goAtan2, isNaN, isZero_fin, isInf, copysign, signBit, hy, hx, zero, negZero, neg, ← h]
 
+/-! ## encodeURI / encodeURIComponent / decodeURIComponent (§15.1.3) -/
+
+set_option maxRecDepth 4000 in
+/-- C13.encode_sets (ASCII half): for each of the 128 ASCII code points, what otto's regexp + url.QueryEscape
+    pipeline emits is the character itself exactly when §15.1.3 lists it as unescaped, else "%XX" -/
+theorem encode_sets_ascii : ∀ r, r < 128 →
+    replaceRune keepURI r = (if Spec.unescapedURISet r then [r] else Spec.pctOctet r) ∧
+    replaceRune keepComponent r = (if Spec.unescapedComponentSet r then [r] else Spec.pctOctet r) := by
+  decide
+
+
+/-- C13.encode_sets (non-ASCII half): every code point ≥ 128 is emitted as the %XX escapes of its UTF-8 octets -/
+theorem encode_sets_high (r : Nat) (hr : Scalar r) (h : 128 ≤ r) :
+    replaceRune keepURI r = (Spec.utf8Octets r).flatMap Spec.pctOctet ∧
+    replaceRune keepComponent r = (Spec.utf8Octets r).flatMap Spec.pctOctet := by
+  have hk1 : keepURI.contains r = false := by simp [keepURI]; omega
+  have hk2 : keepComponent.contains r = false := by simp [keepComponent]; omega
+  have h32 : r ≠ 32 := by omega
+  have hb := utf8Octets_high r hr h
+  have hq := queryEscape_high (Spec.utf8Octets r) (fun b hb' => (hb b hb').1)
+  have hp : (Spec.utf8Octets r).flatMap pct = (Spec.utf8Octets r).flatMap Spec.pctOctet := by
+    apply flatMap_congr'; intro b hb'; exact pct_eq b (hb b hb').2
+  simp only [replaceRune, hk1, hk2, Bool.false_eq_true, if_false, h32, encodeRune_eq r hr, hq, hp, and_self]
+
+/-- C13.uri_roundtrip_partial — for every sequence of Unicode scalar values, URL-unescaping (after the
+    `+` → `%2B` hack) what encodeURIComponent's escaping stage emits returns exactly the UTF-8 bytes of the
+    sequence, without error.
+    (Full statement, not proved: decodeURIComponent(encodeURIComponent(s)) = s for every well-formed UTF-16 s.
+    Missing links: utf8.ValidString(encodeRunes rs) = true, the surrogate-pairing loop
+    encLoop (utf16Encode rs) = some (encodeRunes rs), decodeRunes ∘ encodeRunes = id, and for the
+    decodeURI/encodeURI pair that decodeURIGuard never fires on encodeURI output.) -/
+theorem uri_roundtrip_partial (rs : List Nat) (h : ∀ r ∈ rs, Scalar r) :
+    queryUnescape (plusHack (rs.flatMap (replaceRune keepComponent))) = some (encodeRunes rs) := by
+  induction rs with
+  | nil => simp [plusHack, queryUnescape, encodeRunes]
+  | cons r rs ih =>
+    have ih' := ih (fun x hx => h x (by simp [hx]))
+    simp only [List.flatMap_cons, plusHack_append]
+    rw [component_rune r (h r (by simp)), ih']
+    simp [encodeRunes]
+
+/-- non-vacuity: ASCII, BMP and astral scalar values -/
+example : ∀ r ∈ [97, 37, 43, 0xE9, 0x20AC, 0x1F600, 0x10FFFF], Scalar r := by simp [Scalar]
+
 /-! ## escape / unescape (§B.2.1–2) -/
 
 /-- C13.escape_roundtrip — for every string of BMP characters (held, as otto holds it, as the Go string
